@@ -14,6 +14,7 @@ import (
 	"runtime/debug"
 	"strings"
 	"time"
+	"unicode/utf8"
 
 	"github.com/relex/gotils/logger"
 
@@ -120,16 +121,17 @@ type pending struct {
 }
 
 type harness struct {
-	w    *world
-	ctx  *seq.Ctx
-	seen map[string]bool
+	w         *world
+	ctx       *seq.Ctx
+	seen      map[string]bool
+	confirmed map[string]int
 	// the running agent core and the cases whose output has not been looked at yet (all with the same limits and sentinels)
 	sess  *session
 	blim  limits
 	bst   *sentinels
 	batch []pending
 	// vacuity counters (per worker process)
-	nRejected, nDelivered, nProcDropped, nPanic, nOwnPipe, nGatherErr, nSessions, nBatches, nFallback int64
+	nRejected, nDelivered, nProcDropped, nPanic, nOwnPipe, nGatherErr, nSessions, nBatches, nFallback, nRequeued int64
 }
 
 // Reuse of one agent core (session): it serves at most maxCasesPerSession cases, its pipelines' flush tick fires every
@@ -190,34 +192,43 @@ func immediate(c counts, bad string) (string, string) {
 
 // delivered applies the output part of the oracle to everything delivered since the last tick: n cases were played, whose
 // counter increments add up to c.
-func (h *harness) delivered(s *session, base [][3]string, n int, c counts, count bool, interrupted bool) (string, string) {
-	if interrupted {
-		// the core is being judged after a case that panicked half-way: its counters and output also hold the part of that
-		// case that was handled before the panic (at most its sentinels 1 and 2), so only the sentinel sequence is checked
-		s.gatherE = true
-	}
-	if s.gatherE {
-		// a label value that is not valid UTF-8 makes the pipeline registry unreadable (Gather fails): the pipeline-level
-		// counters cannot be observed; delivery is still checked. Reported in the evidence notes.
-		if count {
-			h.nGatherErr++
+func (h *harness) delivered(s *session, base [][3]string, n int, c counts, count bool) (string, string) {
+	// A key value that is not valid UTF-8 becomes a label of its pipeline's metrics and makes exactly those series
+	// unreadable (Gather reports an error and leaves them out; no panic). For such pipelines the number of records handed
+	// to the worker stands in for passed+dropped, and their events are not compared with the passed counter.
+	hidden := 0
+	for _, p := range s.in.pipes {
+		if !utf8.ValidString(p.id) {
+			hidden += p.entered
 		}
-	} else if c.procPassed+c.procDropped != c.inPassed {
-		return "accounting:pipeline-records-not-counted-once", fmt.Sprintf("input passed=%d but pipelines passed=%d dropped=%d", c.inPassed, c.procPassed, c.procDropped)
+	}
+	if s.gatherE && count {
+		h.nGatherErr++
+	}
+	if c.procPassed+c.procDropped+hidden != c.inPassed {
+		return "accounting:pipeline-records-not-counted-once", fmt.Sprintf("input passed=%d but pipelines passed=%d dropped=%d (and %d records went to pipelines whose counters are unreadable)", c.inPassed, c.procPassed, c.procDropped, hidden)
 	}
 	for o, oname := range h.w.outputNames {
 		es, err := s.in.decode(o)
 		if err != nil {
 			return "chunk-undecodable:" + oname, err.Error()
 		}
-		if !s.gatherE && len(es) != c.procPassed {
-			return "accounting:delivered-differs-from-passed:" + oname, fmt.Sprintf("pipelines counted %d passed records but output %s received %d events", c.procPassed, oname, len(es))
+		visible, fromHidden := 0, 0
+		for _, e := range es {
+			if utf8.ValidString(s.in.pipes[e.pipe].id) {
+				visible++
+			} else {
+				fromHidden++
+			}
 		}
-		if !interrupted && len(es) > c.inPassed {
-			return "accounting:delivered-more-than-accepted:" + oname, fmt.Sprintf("input accepted %d records but output %s received %d events", c.inPassed, oname, len(es))
+		if visible != c.procPassed {
+			return "accounting:delivered-differs-from-passed:" + oname, fmt.Sprintf("pipelines counted %d passed records but output %s received %d events from them", c.procPassed, oname, visible)
+		}
+		if fromHidden > hidden {
+			return "accounting:delivered-more-than-accepted:" + oname, fmt.Sprintf("%d records went to pipelines with unreadable counters but output %s received %d events from them", hidden, oname, fromHidden)
 		}
 		// sentinels: the sentinel texts must appear as (1,2,3) x n, unchanged, in that order, all in one pipeline
-		next, pipe, own, extra := 0, -1, 0, 0
+		next, pipe, own := 0, -1, 0
 		for _, e := range es {
 			which := -1
 			for i := 0; i < 3; i++ {
@@ -238,10 +249,6 @@ func (h *harness) delivered(s *session, base [][3]string, n int, c counts, count
 			}
 			if pipe < 0 {
 				pipe = e.pipe
-			}
-			if interrupted && next == 3*n && extra < 2 && e.pipe == pipe && which == extra {
-				extra++
-				continue
 			}
 			if e.pipe != pipe || which != next%3 || next >= 3*n {
 				return "sentinel:reordered-or-duplicated:" + oname, fmt.Sprintf("event #%d of the sentinel sequence on %s is sentinel %d in pipeline %d; expected sentinel %d in pipeline %d (sequence 1,2,3 x %d)",
@@ -277,7 +284,7 @@ func (h *harness) single(lim limits, st *sentinels, bad string) (string, string)
 	if k, m := immediate(c, bad); k != "" {
 		return k, m
 	}
-	return h.delivered(s, base, 1, c, false, false)
+	return h.delivered(s, base, 1, c, false)
 }
 
 // step plays one case on the running agent core. What can be judged at once is judged (panic, input accounting, accept /
@@ -307,21 +314,59 @@ func (h *harness) step(id string, lim limits, st *sentinels, bad, shown string) 
 		h.batch = append(h.batch, pending{id, bad, shown, c})
 		return "", ""
 	}
-	// judge the earlier cases of the batch, then drop the core
-	fresh := s.cases == 1
-	h.flushBatch(site != "")
+	// this core is done: it is dead (panic) or holds output of a case that is not in the batch. The earlier cases of the
+	// batch, whose output has not been judged yet, are played again on a new core (requeue).
+	pend := h.batch
+	h.batch = nil
 	h.sess = nil
-	if fresh {
-		return key, msg
+	// confirm on a fresh core (a panic class that was confirmed three times already in this process is taken as it is)
+	if s.cases > 1 && !(site != "" && h.confirmed[key] >= 3) {
+		if k2, m2 := h.single(lim, st, bad); k2 != "" {
+			if k2 == key {
+				h.confirmed[key]++
+			}
+			key, msg = k2, m2
+		} else {
+			key, msg = "after-earlier-input:"+key, "only after the earlier cases served by the same agent core (not reproducible on its own): "+msg
+		}
 	}
-	if k2, m2 := h.single(lim, st, bad); k2 != "" {
-		return k2, m2
+	h.requeue(lim, st, pend)
+	return key, msg
+}
+
+// requeue plays cases, which went through without complaint once, again on a new agent core and fires its flush tick. If
+// one of them now misbehaves, all of them are judged alone.
+func (h *harness) requeue(lim limits, st *sentinels, pend []pending) {
+	if len(pend) == 0 {
+		return
 	}
-	return "after-earlier-input:" + key, "only after the earlier cases served by the same agent core (not reproducible on its own): " + msg
+	h.nRequeued += int64(len(pend))
+	s := h.w.newSession(lim)
+	h.nSessions++
+	again := make([]pending, 0, batchSize)
+	for _, p := range pend {
+		var c counts
+		site, _ := catch(func() { c = s.exchange([]string{st.s[0], p.bad, st.s[1]}, st.s[2]) })
+		k := site
+		if k == "" {
+			k, _ = immediate(c, p.bad)
+		}
+		if k != "" {
+			for _, q := range pend {
+				if k, m := h.single(lim, st, q.bad); k != "" {
+					h.report(k, q.id, lim, q.shown, m)
+				}
+			}
+			return
+		}
+		again = append(again, pending{p.id, p.bad, p.shown, c})
+	}
+	h.sess, h.blim, h.bst, h.batch = s, lim, st, again
+	h.flushBatch() // judged at once, so that no case is played more than twice
 }
 
 // flushBatch fires the pipelines' flush tick and judges the output of the pending cases.
-func (h *harness) flushBatch(interrupted bool) {
+func (h *harness) flushBatch() {
 	if len(h.batch) == 0 || h.sess == nil {
 		h.batch = h.batch[:0]
 		return
@@ -340,7 +385,8 @@ func (h *harness) flushBatch(interrupted bool) {
 	if site != "" {
 		key, msg = "panic:"+site, detail
 	} else {
-		key, msg = h.delivered(s, h.baseline(lim, st), len(batch), total, !interrupted, interrupted)
+		key, msg = h.delivered(s, h.baseline(lim, st), len(batch), total, true)
+		s.judged()
 	}
 	if key == "" {
 		if s.cases >= maxCasesPerSession || len(s.in.pipes) > maxPipes || s.gatherE {
@@ -380,7 +426,7 @@ func (h *harness) run(id string, lim limits, st *sentinels, bad string) {
 		return
 	}
 	if h.sess != nil && (h.blim.name != lim.name || h.bst != st) {
-		h.flushBatch(false)
+		h.flushBatch()
 		h.sess = nil
 	}
 	shown := fmt.Sprintf("%q", bad)
@@ -399,22 +445,22 @@ func (h *harness) run(id string, lim limits, st *sentinels, bad string) {
 		return key, fmt.Sprintf("limits=%s record=%s\n%s", lim.name, shown, msg)
 	})
 	if len(h.batch) >= batchSize {
-		h.flushBatch(false)
+		h.flushBatch()
 	}
 }
 
 // ------------------------------------------------------------------------------------------------------------------
 
 func enumerate(ctx *seq.Ctx) {
-	h := &harness{w: loadWorld(configPath), ctx: ctx, seen: map[string]bool{}}
+	h := &harness{w: loadWorld(configPath), ctx: ctx, seen: map[string]bool{}, confirmed: map[string]int{}}
 	seeds := loadSeeds()
 	enumMenus(h)
 	enumEdits(h, seeds)
 	enumShort(h)
-	h.flushBatch(false)
+	h.flushBatch()
 	ctx.Note("outcomes_in_one_worker_process", fmt.Sprintf("bad record rejected at input=%d, delivered=%d (of which through a pipeline other than the sentinels'=%d), dropped by pipeline transforms=%d, panics=%d, "+
-		"flush ticks after which the pipeline registry was unreadable (invalid UTF-8 label)=%d, agent cores built=%d, flush ticks judged=%d, batches re-run case by case=%d",
-		h.nRejected, h.nDelivered, h.nOwnPipe, h.nProcDropped, h.nPanic, h.nGatherErr, h.nSessions, h.nBatches, h.nFallback))
+		"flush ticks after which the pipeline registry was unreadable (invalid UTF-8 label)=%d, agent cores built=%d, flush ticks judged=%d, batches re-run case by case=%d, cases played again on a new core after a later case broke theirs=%d",
+		h.nRejected, h.nDelivered, h.nOwnPipe, h.nProcDropped, h.nPanic, h.nGatherErr, h.nSessions, h.nBatches, h.nFallback, h.nRequeued))
 }
 
 func main() {
@@ -426,10 +472,27 @@ func main() {
 		return
 	}
 	seq.Main(&seq.Config{
-		Property:         "C07",
-		Level:            "exploration",
-		Rule:             "TODO",
-		Assumptions:      []string{},
+		Property: "C07",
+		Level:    "exploration",
+		Rule: "record level, sample configuration /repo/testdata/config_sample.yml: each case sends sentinel-1, RECORD, sentinel-2 on one connection and sentinel-3 on a second one through the real " +
+			"LogParsingReceiver (syslog parser + extraction transforms) -> byKeySet orchestrator (pipeline creation per key set) -> LogProcessingWorker (pipeline transforms, both serializers, both chunk makers) -> capture, " +
+			"decoded independently (fluentlib msgpack / gzip+JSON). Enumerated: (A) the full product of the per-token menus PRI(9) x timestamp(9) x host(6) x app(6) x msgid(7) x SD(2) x message(17) = 694008 records under limits " +
+			"scaled to message 64 / record 320 (thorough: also under the shipped limits; quick there: all combinations with at most two non-normal tokens); (B) all one-edit neighbours (substitution by each of 255 other bytes, " +
+			"insertion of each of 256 bytes at every position, every deletion) of five records of testdata/development (scaled limits: all five; shipped limits: two in quick, five in thorough); (C) all strings over " +
+			"{<,1,>,space,-,a} of length 0-7 (thorough 0-8) in front of a fixed valid tail. Oracle: no panic; every line counted exactly once at the input; a record outside the documented grammar rejected, one inside it accepted; " +
+			"pipeline passed+dropped = input passed; events delivered per output = pipeline passed; the three sentinels delivered unchanged (equal to their delivery without the bad record), once, in order, on both outputs. " +
+			"non-trivial = the record passes the 32-byte / '<' gate of the parser",
+		Assumptions: []string{
+			"the hybrid buffer and the forwarding clients are not part of this harness (a chunk is opaque to them; C02/C03/C04 cover them): the chunk handed to the buffer is captured and decoded",
+			"the pipeline worker's handlers (onInput, onTick) run on the harness goroutine through a test-only accessor so that a panic is attributed to its input; their code is the repository's",
+			"an agent core (receiver, orchestrator, pipelines) serves up to 128 consecutive cases and its flush tick fires every 32 cases; everything found that way is re-run alone on a fresh core and that verdict is reported " +
+				"(a finding that needs the earlier cases gets the prefix after-earlier-input:); a replay always runs the case alone on a fresh core",
+			"defs.IntermediateFlushInterval is set to 0 so that every periodic flush finds its interval elapsed (no wall clock in the oracle)",
+			"grammar used by the oracle (DESIGN A.2): must-reject = no leading '<', first token not ending in '>1', fewer than six header tokens after the PRI; must-accept = PRI 1-3 digits <= 191, six non-empty header tokens of " +
+				"printable ASCII, header within 256 bytes (InputLogMaxRecordBytes - InputLogMaxMessageBytes), total length >= 32; everything else (other PRI spellings, empty or non-ASCII tokens, no message part, shorter than 32, longer header) may be rejected or accepted",
+			"a label value that is not valid UTF-8 makes the Prometheus registry of the pipelines unreadable (Gather fails) without any panic; pipeline-level counters are then not compared (delivery still is); counted in the evidence notes - a C19 matter",
+			"the content of the delivered bad record is not judged here (C09/C10), only that it is counted and leaves its neighbours alone",
+		},
 		Enumerate:        enumerate,
 		QuickDeadline:    6 * time.Minute,
 		ThoroughDeadline: 45 * time.Minute,
